@@ -12,8 +12,37 @@ pub enum Rut {
     Call(Call<CRecvBody, ()>),
 }
 
-/// Drive a GET exchange up to the body state with the given response head.
+static APPROACH: std::sync::atomic::AtomicUsize = std::sync::atomic::AtomicUsize::new(0);
+
+/// Drive an exchange up to the body state with the given response head. The way the receive state is
+/// reached rotates: request method and version, a request body, an Expect handshake whose 100 arrives late.
 pub fn recv_body(api: &str, head: &[u8]) -> Option<Rut> {
+    let v = APPROACH.fetch_add(1, std::sync::atomic::Ordering::Relaxed);
+    if api == "flow" && v % 3 == 1 {
+        let method = ["POST", "PUT", "DELETE", "OPTIONS", "PATCH"][(v / 3) % 5];
+        let body_m = matches!(method, "POST" | "PUT" | "PATCH");
+        let mut b = Request::builder().method(method).uri("http://h.test/data");
+        let expect = body_m && (v / 15) % 2 == 0;
+        if expect {
+            b = b.header("expect", "100-continue");
+        }
+        if method == "POST" && (v / 30) % 2 == 0 {
+            b = b.version(ureq_proto::http::Version::HTTP_10);
+        }
+        let f = Flow::new(b.body(()).unwrap()).unwrap();
+        let mut f = crate::fx::to_recv_response(f).expect("harness: reach RecvResponse");
+        if expect {
+            // the interim response arrives late and is skipped
+            let (n, r) = f.try_response(b"HTTP/1.1 100 Continue\r\n\r\n").unwrap();
+            assert!(n == 25 && r.is_none(), "harness: late 100 not skipped");
+        }
+        let (n, r) = f.try_response(head).unwrap();
+        assert!(r.is_some() && n == head.len(), "harness: head not accepted");
+        return match f.proceed().unwrap() {
+            RecvResponseResult::RecvBody(f) => Some(Rut::Flow(f)),
+            _ => None,
+        };
+    }
     let req = Request::get("http://h.test/data").body(()).unwrap();
     let mut buf = vec![0u8; 1024];
     if api == "flow" {
